@@ -42,9 +42,40 @@ JudgeC03(e) ==
         IN Cat(edge, NN(cfg), 1) \o Cat(unr, Len(e.lints), 1))
 
 \* ------------------------------------------------------------------- C11
+\* Which instruction a label stands in front of, read off the parsed statements (the list the graph is built from),
+\* not off the labels the graph shows on its nodes: a label of the text segment names the next instruction, whatever
+\* directives stand in between.  Nothing is required of labels in the data segment.
+SegAt(ns, j) ==
+  LET ds == { i \in 1..(j - 1) : ns[i].k = "Directive" /\ ns[i].dir \in {".data", ".text"} }
+  IN IF ds = {} THEN ".text" ELSE ns[CHOOSE i \in ds : \A i2 \in ds : i2 <= i].dir
+NextInst(ns, j) ==
+  LET is == { i \in (j + 1)..Len(ns) : ns[i].isinst } IN IF is = {} THEN 0 ELSE CHOOSE i \in is : \A i2 \in is : i <= i2
+SameText(a, b) == a.file = b.file /\ a.r0 = b.r0 /\ a.r1 = b.r1
+CodeLabelsOf(ns, x) ==
+  { ns[j].lab : j \in { q \in 1..Len(ns) : /\ ns[q].k = "Label" /\ SegAt(ns, q) = ".text"
+                                             /\ NextInst(ns, q) # 0 /\ SameText(ns[NextInst(ns, q)], x) } }
+DataLabels(ns) == { ns[j].lab : j \in { q \in 1..Len(ns) : ns[q].k = "Label" /\ SegAt(ns, q) # ".text" } }
+ShownLabelsOf(cfg, x) == UNION { SeqSet(cfg.nodes[i].labels) : i \in { q \in 1..NN(cfg) : SameText(cfg.nodes[q].node, x) } }
+JudgeLabels(e) ==
+  LET cfg == e.cfg ns == e.nodes
+      one(i) == LET x == cfg.nodes[i].node
+                    want == CodeLabelsOf(ns, x)
+                    got  == ShownLabelsOf(cfg, x)
+                IN IF x.k \in {"ProgramEntry"} \/ ~x.isinst THEN <<>>
+                   ELSE (IF want \ got # {} THEN << "C11:labels:instruction-lost-a-label" >> ELSE <<>>)
+                        \o (IF (got \ want) \ DataLabels(ns) # {} THEN << "C11:labels:label-on-another-instruction" >> ELSE <<>>)
+  IN Cat(one, NN(cfg), 1)
+
 Rows(cfg) == 1..Len(cfg.funcs)
+\* the analysis stopped with "label without instruction": justified only if some label that a statement names is
+\* followed by no instruction at all (read off the statements)
+UsedLabels(ns) == { ns[i].lab : i \in { j \in 1..Len(ns) : ns[j].k \in {"JumpLink", "Branch", "LoadAddr"} } } \ {"", "<return>"}
+Dangling(ns) == { u \in UsedLabels(ns) : /\ \E j \in 1..Len(ns) : ns[j].k = "Label" /\ ns[j].lab = u
+                                         /\ \A j \in 1..Len(ns) : (ns[j].k = "Label" /\ ns[j].lab = u) => NextInst(ns, j) = 0 }
 JudgeC11(e) ==
-  IF ~e.cfgok THEN <<>>
+  IF ~e.cfgok
+    THEN (IF e.cfgerr_kind = "Label without instruction" /\ Len(e.errors) = 0 /\ Dangling(e.nodes) = {}
+            THEN << "C11:labels:label-rejected-although-an-instruction-follows" >> ELSE <<>>)
   ELSE LET cfg == e.cfg
            called  == { cfg.nodes[i].node.lab : i \in { j \in 1..NN(cfg) : KN(cfg, j) = "call" } } \cup HandlerLabels(cfg)
            fentry  == { i \in 1..NN(cfg) : KN(cfg, i) = "fentry" }
@@ -77,7 +108,8 @@ JudgeC11(e) ==
            sharedE  == { i \in fentry : Cardinality(SeqSet(cfg.nodes[i].funcs)) >= 2 }
            nrep     == Cardinality({ i \in 1..Len(e.lints) : e.lints[i].code = "node-in-many-functions" })
            reported == nrep > 0
-       IN (IF fentry \ expectE # {} THEN << "C11:function-entry:not-a-call-target" >> ELSE <<>>)
+       IN JudgeLabels(e)
+          \o (IF fentry \ expectE # {} THEN << "C11:function-entry:not-a-call-target" >> ELSE <<>>)
           \o (IF expectE \ fentry # {} THEN << "C11:function-entry:call-target-not-a-function" >> ELSE <<>>)
           \* a label that a call names but that stands in front of no instruction (end of file, data only) is no function
           \* although a call names it: the analysis must not go on as if nothing were wrong
